@@ -1,7 +1,103 @@
-(* C11 -- the property theorems and nothing else (each closed by `exact <lemma>`). *)
-From Coq Require Import List NArith Bool Arith.
-From Kenlm Require Import C11.FilterSpec C11.IntersectModel C11.FilterModel.
+(* C11 -- the property theorems and nothing else.  Each is closed by `exact <lemma>`; vlib runs
+   Print Assumptions on every one of them on every check run. *)
+From Coq Require Import List NArith ZArith Bool Arith Sorted.
+From Kenlm Require Import C11.FilterSpec C11.IntersectModel C11.FilterModel C11.IntersectProofs C11.VocabProofs
+  C11.TokenProofs C11.OutputProofs C11.QueryProofs C11.PhraseProofs.
 Import ListNotations.
 
-Theorem C11_placeholder_bootstrap : forall l v, lower_bound [] v = [] /\ lower_bound l 0 = l.
-Proof. intros. split; [reflexivity|]. destruct l; reflexivity. Qed.
+(* util/multi_intersection.hh on sorted posting lists: FirstIntersection returns the least common element (or
+   none), AllIntersection all common elements in increasing order; neither runs out of the model's fuel. *)
+Theorem C11_intersection_correct : forall sets, sets <> [] -> (forall s, In s sets -> StronglySorted lt s) ->
+  (exists r, first_intersection sets = Ok r /\
+     match r with
+     | Some v => (forall s, In s sets -> In v s) /\ forall u, (forall s, In s sets -> In u s) -> v <= u
+     | None => forall u, ~ (forall s, In s sets -> In u s)
+     end) /\
+  (exists l, all_intersection sets = Ok l /\ StronglySorted lt l /\ forall u, In u l <-> (forall s, In s sets -> In u s)).
+Proof. intros sets H1 H2. split; [exact (first_intersection_correct sets H1 H2)|exact (all_intersection_correct sets H1 H2)]. Qed.
+
+(* kept <-> keep: for every vocabulary file (bytes), every n-gram of well-formed words joined by single spaces,
+   every vocabulary mode, with and without `context`, the outputs that receive the line are exactly those of
+   the specification predicates keep_single / keep_union / keep_multiple (FilterSpec.v). *)
+Theorem C11_vocab_modes_exact : forall cfg bytes ws, cphrase cfg = false -> words_ok ws ->
+  let v := load_vocab cfg bytes in
+  let ctx := cctx cfg in
+  match cmode cfg with
+  | MCopy => targets cfg v (join ws) = Ok [0]
+  | MSingle => targets cfg v (join ws) = Ok (if keep_single (read_single bytes) ctx ws then [0] else [])
+  | MUnion => targets cfg v (join ws) = Ok (if keep_union (read_multiple bytes) ctx ws then [0] else [])
+  | MMultiple => exists l, targets cfg v (join ws) = Ok l /\ StronglySorted lt l /\
+                   forall j, In j l <-> j < length (read_multiple bytes) /\ keep_multiple (read_multiple bytes) j ctx ws = true
+  end.
+Proof. exact targets_exact. Qed.
+
+(* the n-gram the filter sees in an ARPA line `prob TAB n-gram [TAB back-off]` / a raw line `n-gram [TAB ...]` *)
+Theorem C11_line_ngram : forall p ws tail, ~ In TAB p -> words_ok ws -> (tail = [] \/ exists b, tail = TAB :: b) ->
+  arpa_ngram (p ++ TAB :: join ws ++ tail) = Some (join ws) /\ raw_ngram (join ws ++ tail) = join ws.
+Proof.
+  intros p ws tail Hp Hok Ht. split.
+  - exact (arpa_ngram_line p (join ws) tail Hp (join_no_tab ws Hok) Ht).
+  - exact (raw_ngram_line (join ws) tail (join_no_tab ws Hok) Ht).
+Qed.
+
+(* Every output file is: a header that counts the lines of each section (it fits into the space reserved for
+   the input's counts, the slack stays as newlines), then exactly the lines the filter passes to that output --
+   a sublist of the input section, verbatim and in order.  The model never reports out-of-fuel.
+   (All modes, phrase mode included; every line must have its tab, otherwise the tool stops with an error.) *)
+Theorem C11_output_is_sublist_with_counts : forall cfg bytes secs,
+  let v := load_vocab cfg bytes in
+  (forall sec line, In sec secs -> In line sec -> arpa_ngram line <> None) ->
+  exists files, filter_arpa cfg bytes secs = FOk files /\ length files = noutputs cfg v /\
+    forall j, j < noutputs cfg v ->
+      let kept := map (kept_lines cfg v true j) secs in
+      Forall2 sublist kept secs /\
+      nth j files [] =
+        write_counts (map (@length _) kept)
+        ++ repeat NL (size_needed (map (@length _) secs) - size_needed (map (@length _) kept))
+        ++ render_sections 1 kept ++ s_end.
+Proof. exact output_is_sublist_with_counts. Qed.
+
+(* copy mode preserves every entry (both formats) *)
+Theorem C11_copy_identity : forall c p bytes secs lines,
+  ((forall sec line, In sec secs -> In line sec -> arpa_ngram line <> None) ->
+   filter_arpa {| cmode := MCopy; cctx := c; cphrase := p |} bytes secs =
+   FOk [write_counts (map (@length _) secs) ++ render_sections 1 secs ++ s_end]) /\
+  filter_raw {| cmode := MCopy; cctx := c; cphrase := p |} bytes lines = FOk [render_lines lines].
+Proof. intros. split; [exact (copy_identity c p bytes secs)|exact (copy_identity_raw c p bytes lines)]. Qed.
+
+(* Consequently: for a model m and the model filtered by any predicate that keeps every n-gram made of passing
+   words (and <unk>), the ARPA back-off recursion gives the same probability and the same matched length for
+   every word after every context over passing words. *)
+Theorem C11_query_equivalence : forall (W : Type) (unk : W) (pass : W -> bool) (kept : list W -> bool),
+  (forall g, g <> [] -> forallb pass g = true -> kept g = true) -> kept [unk] = true ->
+  forall (m : lm W) c x, forallb pass (c ++ [x]) = true ->
+  score W unk (restrict W kept m) c x = score W unk m c x.
+Proof. exact query_equivalence. Qed.
+
+(* ... instantiated for the three vocabulary modes, with or without `context` *)
+Theorem C11_query_equivalence_modes : forall sents v j ctx (m : lm word) c x,
+  (forallb (passes v) (c ++ [x]) = true ->
+   score word unk_word (restrict word (keep_single v ctx) m) c x = score word unk_word m c x) /\
+  (In v sents -> forallb (passes v) (c ++ [x]) = true ->
+   score word unk_word (restrict word (keep_union sents ctx) m) c x = score word unk_word m c x) /\
+  (forallb (passes (nth j sents [])) (c ++ [x]) = true ->
+   score word unk_word (restrict word (keep_multiple sents j ctx) m) c x = score word unk_word m c x).
+Proof.
+  intros. split; [exact (query_equivalence_single v ctx m c x)|split].
+  - intros Hv. exact (query_equivalence_union sents v ctx m c x Hv).
+  - exact (query_equivalence_multiple sents j ctx m c x).
+Qed.
+
+(* Phrase mode.  FULL STATEMENT WANTED (C11_phrase_complete): the Vertex/Arc::LowerBound graph search of
+   lm/filter/phrase.cc keeps every n-gram that can be read off a concatenation of one sentence's phrases.
+   PROVED HERE: the executable decision procedure of the model (FilterModel.derivable_b: infix of a phrase, or
+   non-empty suffix . whole phrases . prefix) decides `derivable` exactly -- complete AND sound -- and so do the
+   model's union / multiple phrase filters.  MISSING: a model of the priority-queue search itself (Substrings
+   tables, Arc/Vertex lower bounds) with its invariant; the real search is tied to derivable_b by differential
+   execution on every run (bytes of bin/filter ... phrase vs the extracted model) and by the specification oracle. *)
+Theorem C11_phrase_complete_partial : forall sents ws,
+  (phrase_union_pass sents ws = true <->
+     phrase_words ws = [] \/ exists s, In s sents /\ derivable s (phrase_words ws)) /\
+  (forall j, In j (phrase_multiple_targets sents ws) <->
+     j < length sents /\ (phrase_words ws = [] \/ derivable (nth j sents []) (phrase_words ws))).
+Proof. intros. split; [exact (phrase_union_exact sents ws)|exact (phrase_multiple_exact sents ws)]. Qed.
